@@ -129,16 +129,25 @@ ORDERING = {"Less": -1, "Equal": 0, "Greater": 1}
 
 
 # ---------------------------------------------------------------- state
-class Frame:
-    __slots__ = ("func", "fid", "bb", "ip", "dest", "ret_target", "visits")
+class Invoke:
+    """request from a std model to run a closure / function of the crate under test on `args`; `then(st, value)` receives
+    its return value and yields either the model's final value or another Invoke (e.g. the next element of an iterator)"""
 
-    def __init__(self, func, fid, dest=None, ret_target=None):
+    def __init__(self, fn_name, args, then):
+        self.fn_name, self.args, self.then = fn_name, args, then
+
+
+class Frame:
+    __slots__ = ("func", "fid", "bb", "ip", "dest", "ret_target", "visits", "on_return")
+
+    def __init__(self, func, fid, dest=None, ret_target=None, on_return=None):
         self.func, self.fid, self.bb, self.ip = func, fid, 0, 0
         self.dest, self.ret_target = dest, ret_target
         self.visits = {}
+        self.on_return = on_return
 
     def clone(self):
-        f = Frame(self.func, self.fid, self.dest, self.ret_target)
+        f = Frame(self.func, self.fid, self.dest, self.ret_target, self.on_return)
         f.bb, f.ip = self.bb, self.ip
         f.visits = dict(self.visits)
         return f
@@ -594,9 +603,27 @@ class Executor:
             st.pc = list(pc)
         return self.run_func(func, args, st)
 
-    def push_frame(self, st, func, args, dest=None, ret_target=None):
+    def closure_fn(self, callee):
+        """MIR item of the closure whose type `{closure@file:l:c: l:c}` occurs in the callee's generic arguments"""
+        m = re.findall(r"\{closure@[^}]*\}", callee)
+        if not m:
+            return None
+        ty = m[-1]
+        if not hasattr(self, "_closure_index"):
+            self._closure_index = {}
+            for name in self.mf.order:
+                if "{closure#" not in name or "::promoted[" in name:
+                    continue
+                a, _ = self.mf.items[name]
+                hdr = self.mf.lines[a]
+                mm = re.search(r"\(_1: (?:&mut |&)?(\{closure@[^}]*\})", hdr)
+                if mm:
+                    self._closure_index.setdefault(mm.group(1), name)
+        return self._closure_index.get(ty)
+
+    def push_frame(self, st, func, args, dest=None, ret_target=None, on_return=None):
         st.nframe += 1
-        fr = Frame(func, "f%d" % st.nframe, dest, ret_target)
+        fr = Frame(func, "f%d" % st.nframe, dest, ret_target, on_return)
         if len(args) != func.nargs:
             raise Inconclusive("arity mismatch calling %s: %d args for %d params" % (func.name, len(args), func.nargs))
         for i, a in enumerate(args):
@@ -702,6 +729,12 @@ class Executor:
                 else:
                     raise Inconclusive("return of undefined value from " + fr.func.name)
             st.frames.pop()
+            if fr.on_return is not None:
+                r = fr.on_return(st, rv)
+                if isinstance(r, Invoke):
+                    self.push_frame(st, self.mf.func(r.fn_name), r.args, dest=fr.dest, ret_target=fr.ret_target, on_return=r.then)
+                    return None
+                rv = r
             if len(st.frames) <= base:
                 return [("out", Outcome("return", rv, st))]
             caller = st.frames[-1]
@@ -799,6 +832,13 @@ class Executor:
                     if not val.site:
                         val.site = site_of(fr, t)
                     out.append(("out", Outcome("panic", val, s2)))
+                    continue
+                if isinstance(val, Invoke):
+                    if t.a["target"] is None:
+                        raise Inconclusive("closure invocation in a diverging call")
+                    self.stats["inlined"][val.fn_name] = self.stats["inlined"].get(val.fn_name, 0) + 1
+                    self.push_frame(s2, self.mf.func(val.fn_name), val.args, dest=t.a["dest"], ret_target=t.a["target"], on_return=val.then)
+                    out.append(("state", s2))
                     continue
                 fr2 = s2.frames[-1]
                 cell, path = self.resolve(s2, fr2, t.a["dest"])
